@@ -250,11 +250,13 @@ func genGH(rng *hx.Rng, n int) []string {
 // ---------------------------------------------------------------------------------------------
 
 // pqAPI is what both queues offer to the interpreter.
+// push and popUntil also return the key the independent oracle orders by (the integer priority;
+// for the timed queue the instant in Unix nanoseconds, whatever its representation).
 type pqAPI interface {
-	push(v, p int) func()
+	push(v, p, rep int) (func(), int)
 	peek() (int, bool)
 	pop() (int, bool)
-	popUntil(p int) []int
+	popUntil(p, rep int) ([]int, int)
 	popAll() []int
 	size() int
 	isEmpty() bool
@@ -265,27 +267,61 @@ type realPQ struct {
 	desc bool
 }
 
-func (q realPQ) push(v, p int) func() { return q.q.Push(v, prio{p, q.desc}) }
-func (q realPQ) peek() (int, bool)    { return q.q.Peek() }
-func (q realPQ) pop() (int, bool)     { return q.q.Pop() }
-func (q realPQ) popUntil(p int) []int { return q.q.PopUntil(prio{p, q.desc}) }
-func (q realPQ) popAll() []int        { return q.q.PopAll() }
-func (q realPQ) size() int            { return q.q.Size() }
-func (q realPQ) isEmpty() bool        { return q.q.IsEmpty() }
+func (q realPQ) push(v, p, _ int) (func(), int) { return q.q.Push(v, prio{p, q.desc}), p }
+func (q realPQ) peek() (int, bool)              { return q.q.Peek() }
+func (q realPQ) pop() (int, bool)               { return q.q.Pop() }
+func (q realPQ) popUntil(p, _ int) ([]int, int) { return q.q.PopUntil(prio{p, q.desc}), p }
+func (q realPQ) popAll() []int                  { return q.q.PopAll() }
+func (q realPQ) size() int                      { return q.q.Size() }
+func (q realPQ) isEmpty() bool                  { return q.q.IsEmpty() }
 
 var epoch = time.Unix(1700000000, 0)
 
-func at(p int) time.Time { return epoch.Add(time.Duration(p) * time.Second) }
+// monoBase is the one reading of the clock every time value with a monotonic reading derives from
+// (two independent time.Now() calls would make equal instants differ by clock jitter).
+var monoBase = time.Now()
+
+const timeReps = 6
+
+// at builds the instant number p (epoch + p * 1.000000001 s) in representation rep: UTC, Local, a
+// fixed +1h zone, a time.Unix(sec, nsec) round trip, with a monotonic reading, and that one stripped.
+// All representations of one p are the same instant (same UnixNano) but different time.Time structs.
+func at(p, rep int) time.Time {
+	t := epoch.Add(time.Duration(p) * (time.Second + 1))
+	switch rep % timeReps {
+	case 0:
+		return t.UTC()
+	case 1:
+		return t.In(time.Local)
+	case 2:
+		return t.In(time.FixedZone("plus1", 3600))
+	case 3:
+		return time.Unix(t.Unix(), int64(t.Nanosecond()))
+	case 4:
+		return monoBase.Add(t.Sub(monoBase))
+	default:
+		return monoBase.Add(t.Sub(monoBase)).Round(0)
+	}
+}
 
 type realTPQ struct{ q timed.PriorityQueue[int] }
 
-func (q realTPQ) push(v, p int) func() { q.q.Push(v, at(p)); return nil }
-func (q realTPQ) peek() (int, bool)    { return q.q.Peek() }
-func (q realTPQ) pop() (int, bool)     { return q.q.Pop() }
-func (q realTPQ) popUntil(p int) []int { return q.q.PopUntil(at(p)) }
-func (q realTPQ) popAll() []int        { return q.q.PopAll() }
-func (q realTPQ) size() int            { return q.q.Size() }
-func (q realTPQ) isEmpty() bool        { return q.q.IsEmpty() }
+func (q realTPQ) push(v, p, rep int) (func(), int) {
+	t := at(p, rep)
+	q.q.Push(v, t)
+
+	return nil, int(t.UnixNano())
+}
+func (q realTPQ) peek() (int, bool) { return q.q.Peek() }
+func (q realTPQ) pop() (int, bool)  { return q.q.Pop() }
+func (q realTPQ) popUntil(p, rep int) ([]int, int) {
+	t := at(p, rep)
+
+	return q.q.PopUntil(t), int(t.UnixNano())
+}
+func (q realTPQ) popAll() []int { return q.q.PopAll() }
+func (q realTPQ) size() int     { return q.q.Size() }
+func (q realTPQ) isEmpty() bool { return q.q.IsEmpty() }
 
 type pqW struct {
 	name    string
@@ -342,14 +378,17 @@ func (w *pqW) exec(r *hx.Run, f []string) (string, string) {
 	}()
 	switch f[0] {
 	case "push":
-		v, p := atoi(f[1]), atoi(f[2])
-		h := w.q.push(v, p)
+		v, p, rep := atoi(f[1]), atoi(f[2]), 0
+		if len(f) > 3 {
+			rep = atoi(f[3])
+		}
+		h, key := w.q.push(v, p, rep)
 		if w.name == "tpq" && len(w.handles) >= 2 {
 			w.removedInner = true // from here on pops are counted
 		}
 		id := len(w.handles)
 		w.handles = append(w.handles, h)
-		w.ms.live[id] = item{v, p}
+		w.ms.live[id] = item{v, key}
 		if h == nil {
 			return line, "ok"
 		}
@@ -399,8 +438,11 @@ func (w *pqW) exec(r *hx.Run, f []string) (string, string) {
 
 		return line, optVal(v, ok)
 	case "popuntil":
-		p := atoi(f[1])
-		vals := w.q.popUntil(p)
+		rep := 0
+		if len(f) > 2 {
+			rep = atoi(f[2])
+		}
+		vals, p := w.q.popUntil(atoi(f[1]), rep)
 		for _, it := range w.popped(r, "popuntil", vals) {
 			if w.ms.before(p, it.p) {
 				fail(r, w.name, "popuntil", "pop-until", fmt.Sprintf("PopUntil(%d) returned %d with priority %d", p, it.v, it.p))
@@ -459,6 +501,9 @@ func genPQ(name string, rng *hx.Rng, n int) []string {
 		case x < 45:
 			// values are unique (= the handle number) so that the answers identify the element
 			op = fmt.Sprintf("push %d %d", pushed, rng.Intn(np)-1)
+			if name == "tpq" { // the instant in one of its time.Time representations
+				op += fmt.Sprintf(" %d", rng.Intn(timeReps))
+			}
 			pushed++
 		case x < 65:
 			op = fmt.Sprintf("remove %d", rng.Intn(pushed+1))
@@ -468,6 +513,9 @@ func genPQ(name string, rng *hx.Rng, n int) []string {
 			op = "pop"
 		case x < 92:
 			op = fmt.Sprintf("popuntil %d", rng.Intn(np+1)-1)
+			if name == "tpq" {
+				op += fmt.Sprintf(" %d", rng.Intn(timeReps))
+			}
 		case x < 94:
 			op = "popall"
 		case x < 98:
